@@ -22,6 +22,8 @@
 //!                performs ops; free-running, ordered by flags raised inside the section
 //!   attach       in = [steps, mode, data, parts, cfg]   set_metrics / run / take_metrics /
 //!                get_metrics sequences on one pipeline over several marked collectors
+//!   hist         in = [via, samples]   HistogramMetric filled by record() / with_values(): stats()
+//!                and value() on samples given in quarters (explicit, or a compact generator)
 //!   saves        in = [ncoll, npaths, steps]   multi-step export sequences: calls on several
 //!                collectors interleaved with save_to_file on shared paths (growing, shrinking,
 //!                equal exports; files of other programs; removed files; paths that cannot be
@@ -159,10 +161,16 @@ fn make_metric(name: i64, kind: i64, val: i64) -> Box<dyn Metric> {
             if val % 2 == 0 { Box::new(g.with_description("a ratio")) } else { Box::new(g) }
         }
         3 => {
-            let mut h = HistogramMetric::new(n);
-            for i in 0..(val % 100) {
-                h.record(i as f64 * 1.5);
-            }
+            // the two public ways to fill a histogram: record() one by one / with_values()
+            let mut h = if val % 4 == 3 {
+                HistogramMetric::with_values(n, (0..(val % 100)).map(|i| i as f64 * 1.5).collect())
+            } else {
+                let mut h = HistogramMetric::new(n);
+                for i in 0..(val % 100) {
+                    h.record(i as f64 * 1.5);
+                }
+                h
+            };
             if val >= 100 {
                 h.record(f64::NAN);
                 h.record(f64::INFINITY);
@@ -449,8 +457,16 @@ impl Coll for Mutant {
 }
 
 fn new_collector() -> Arc<dyn Coll> {
+    new_collector_via(0)
+}
+/// the three public constructors of an empty collector: new() / empty() / default()
+fn new_collector_via(k: usize) -> Arc<dyn Coll> {
     match std::env::var("C16_MUTANT").ok().as_deref() {
-        None | Some("") => Arc::new(Real(MetricsCollector::new())),
+        None | Some("") => Arc::new(Real(match k % 3 {
+            0 => MetricsCollector::new(),
+            1 => MetricsCollector::empty(),
+            _ => MetricsCollector::default(),
+        })),
         Some("split") => Arc::new(Mutant::new(Defect::Split)),
         Some("split_noyield") => Arc::new(Mutant::new(Defect::SplitNoYield)),
         Some("nocreate") => Arc::new(Mutant::new(Defect::NoCreate)),
@@ -1122,16 +1138,27 @@ fn capture_print(c: &dyn Coll, tmp: &std::path::Path) -> Vec<u8> {
     std::fs::read(tmp).unwrap()
 }
 
-/// [length, polynomial hash (wrapping, low 61 bits)] of a byte string (Corr/C16.v computes the same of the model's text)
+/// [length, polynomial hash (wrapping, low 40 bits)] of a byte string (Corr/C16.v computes the same of the model's text)
 fn digest(b: &[u8]) -> Value {
     let mut h: u64 = 7;
     for &x in b {
         h = h.wrapping_mul(257).wrapping_add(u64::from(x) + 1);
     }
-    json!([b.len(), h & ((1u64 << 61) - 1)])
+    json!([b.len(), h & ((1u64 << 40) - 1)])
 }
+/// a byte string as a plain ASCII string (one token for Coq's parser instead of a list of
+/// numbers): letters, digits and harmless punctuation as they are, every other byte as ~XX
 fn bytes_json(b: &[u8]) -> Value {
-    json!({ "bytes": b })
+    let mut s = String::with_capacity(b.len() + 16);
+    for &x in b {
+        let c = x as char;
+        if c.is_ascii_alphanumeric() || "_ .:/,;=+*<>()[]{}|!?@#$%^&'-".contains(c) {
+            s.push(c);
+        } else {
+            s.push_str(&format!("~{x:02X}"));
+        }
+    }
+    Value::String(s)
 }
 const FULL_TEXT_LIMIT: usize = 1500;
 
@@ -1154,7 +1181,7 @@ fn run_saves(input: &Value) -> Value {
     set_yield_hook(None);
     let ncoll = input[0].as_u64().unwrap() as usize;
     let npaths = input[1].as_i64().unwrap();
-    let colls: Vec<Arc<dyn Coll>> = (0..ncoll).map(|_| new_collector()).collect();
+    let colls: Vec<Arc<dyn Coll>> = (0..ncoll).map(|k| new_collector_via(k + input[2].as_array().map_or(0, Vec::len))).collect();
     let mut starts: Vec<Option<(Instant, Instant)>> = vec![None; ncoll];
     let mut cur = 0usize;
     std::fs::create_dir_all(SCRATCH).unwrap();
@@ -1261,6 +1288,73 @@ fn run_saves(input: &Value) -> Value {
         files
     ]);
     json!(["ok", obs, finals])
+}
+
+// ------------------------------------------------------------------ HistogramMetric::stats
+
+/// exact hexadecimal rendering of an f64 (Coq reads hex float literals exactly)
+fn hexf(x: f64) -> Value {
+    let bits = x.to_bits();
+    let neg = bits >> 63 == 1;
+    let exp = ((bits >> 52) & 0x7ff) as i64;
+    let man = bits & ((1u64 << 52) - 1);
+    let body = if exp == 0x7ff {
+        if man == 0 { "infinity".to_string() } else { "nan".to_string() }
+    } else if exp == 0 {
+        if man == 0 { "0x0p+0".to_string() } else { format!("0x0.{man:013x}p-1022") }
+    } else {
+        let e = exp - 1023;
+        format!("0x1.{man:013x}p{}{}", if e < 0 { "-" } else { "+" }, e.abs())
+    };
+    json!({"f": if neg { format!("(-{body})") } else { body }})
+}
+
+/// samples in quarters: [0, list] | [1, n, a, b, m, off]: x_i = ((a i + b) mod m) - off
+fn expand_samples(g: &Value) -> Vec<i64> {
+    if g[0] == 0 {
+        g[1].as_array().unwrap().iter().map(|x| x.as_i64().unwrap()).collect()
+    } else {
+        let a = |i: usize| g[i].as_i64().unwrap();
+        (0..a(1)).map(|i| (a(2) * i + a(3)).rem_euclid(a(4)) - a(5)).collect()
+    }
+}
+
+/// in = [via, samples]: via 0 = new() + record() one by one, 1 = with_values(), 2 = with_values() of
+/// the first half + record() of the rest (+ with_description); out = the fields of stats() (times
+/// four, as integers; the mean as a float) and whether value() carries the same numbers
+fn run_hist(input: &Value) -> Value {
+    let xs: Vec<f64> = expand_samples(&input[1]).into_iter().map(|q| q as f64 / 4.0).collect();
+    let h = match input[0].as_i64().unwrap() {
+        0 => {
+            let mut h = HistogramMetric::new("h");
+            xs.iter().for_each(|&x| h.record(x));
+            h
+        }
+        1 => HistogramMetric::with_values("h", xs.clone()),
+        _ => {
+            let mut h = HistogramMetric::with_values("h", xs[..xs.len() / 2].to_vec()).with_description("d");
+            xs[xs.len() / 2..].iter().for_each(|&x| h.record(x));
+            h
+        }
+    };
+    let st = h.stats();
+    let q = |x: f64| -> Value {
+        let y = x * 4.0;
+        if y.fract() == 0.0 && y.abs() < 9.0e15 { json!(y as i64) } else { json!("inexact") }
+    };
+    let v = h.value();
+    let same = |k: &str, x: f64| v.get(k).and_then(Value::as_f64).is_some_and(|y| y.to_bits() == x.to_bits());
+    let twin = v.as_object().is_some_and(|o| o.len() == 8)
+        && v.get("count").and_then(Value::as_u64) == Some(st.count as u64)
+        && same("sum", st.sum)
+        && same("mean", st.mean)
+        && same("min", st.min)
+        && same("max", st.max)
+        && same("p50", st.p50)
+        && same("p95", st.p95)
+        && same("p99", st.p99)
+        && h.name() == "h";
+    json!(["ok", [st.count, q(st.sum), hexf(st.mean), q(st.min), q(st.max), q(st.p50), q(st.p95), q(st.p99)], twin])
 }
 
 fn run_transparent(input: &Value) -> Value {
@@ -1504,6 +1598,7 @@ fn run(kind: &str, input: &Value) -> Value {
         "transparent" => run_transparent(input),
         "export" => run_export(input),
         "saves" => run_saves(input),
+        "hist" => run_hist(input),
         "busy" => run_busy(input),
         "attach" => run_attach(input),
         _ => json!(["bad-kind"]),
@@ -1737,7 +1832,7 @@ fn generate(seed: u64, tier: Tier, em: &mut Emitter) {
         (0, 0), (0, 1), (0, BIG as i64),
         (1, 2), (1, 3),
         (2, 0), (2, 1), (2, 2), (2, 3), (2, 4), (2, 5), (2, 6),
-        (3, 0), (3, 1), (3, 6), (3, 100), (3, 103),
+        (3, 0), (3, 1), (3, 6), (3, 7), (3, 43), (3, 100), (3, 103),
         (4, 0), (4, 1), (4, 2), (4, 3), (4, 4), (4, 5),
         (5, 0), (5, 1),
     ];
@@ -1991,13 +2086,15 @@ fn generate(seed: u64, tier: Tier, em: &mut Emitter) {
     if thorough {
         sizes.extend([1024, 2048, 4096]);
     }
+    // (emitted between the seeded scripts below, so that the big ones end up in different shards)
+    let mut heavy: Vec<Value> = Vec::new();
     for &k in &sizes {
         let half = (k / 2).max(1);
         let steps = json!([
             [12, 1000, k, pow10(19), 2], [7, 0], [10, 1], [12, 1000, half, 5, 0], [7, 0], [10, 0], [7, 0],
             [12, 1000, k, 1, 0], [7, 0], [12, 1000, k, pow10(10), 1], [7, 0], [7, 1]
         ]);
-        em.case("saves", json!([2, 2, steps]), true, &["saves", "sizes"]);
+        heavy.push(json!([2, 2, steps]));
     }
     // (d) every metric kind replaced by a one-digit counter under the same name and back
     let exact: Vec<(i64, i64)> = catalogue.iter().copied().filter(|&(k, v)| !(k == 3 && v >= 100)).collect();
@@ -2025,7 +2122,12 @@ fn generate(seed: u64, tier: Tier, em: &mut Emitter) {
     let snames = [0, 1, 2, 3, 10, -1, -2, -3, -4, -5, -6, -7];
     // (no u64::MAX counter here: a later increment would overflow and poison the collector)
     let exact: Vec<(i64, i64)> = exact.iter().copied().filter(|&kv| kv != (5, 1)).collect();
-    for _ in 0..n_saves {
+    for r in 0..n_saves {
+        if r % 12 == 11 {
+            if let Some(h) = heavy.pop() {
+                em.case("saves", h, true, &["saves", "sizes"]);
+            }
+        }
         let ncoll = rng.range(1, 3);
         let npaths = rng.range(1, 3);
         let mut steps: Vec<Value> = Vec::new();
@@ -2060,6 +2162,38 @@ fn generate(seed: u64, tier: Tier, em: &mut Emitter) {
         }
         let nt = resaved(&steps);
         em.case("saves", json!([ncoll, npaths, steps]), nt, &["saves", "random"]);
+    }
+    for h in heavy {
+        em.case("saves", h, true, &["saves", "sizes"]);
+    }
+
+    // 11. HistogramMetric::stats: every size 0..130 (the percentile indices count/2, count*95/100,
+    //     count*99/100 move at different sizes), then every power of two and its neighbours;
+    //     ascending, descending, constant, few distinct values, negative samples; filled by
+    //     record(), with_values() or both
+    let mut hsizes: Vec<i64> = (0..=130).collect();
+    for e in 8..=(if thorough { 13 } else { 11 }) {
+        let p = 1i64 << e;
+        hsizes.extend([p - 1, p, p + 1]);
+    }
+    hsizes.extend([199, 200, 201, 999, 1000, 1001]);
+    for (i, &n) in hsizes.iter().enumerate() {
+        let i = i as i64;
+        let sg = match i % 6 {
+            0 => json!([1, n, 6, 0, 1i64 << 40, 0]),             // 0, 1.5, 3.0, ..
+            1 => json!([1, n, -3, 0, 1i64 << 40, 1i64 << 39]),    // descending, negative
+            2 => json!([1, n, 7919, 13, 10007, 5000]),            // scattered
+            3 => json!([1, n, 1, 0, 3, 1]),                       // three distinct values
+            4 => json!([1, n, 0, 5, 7, 0]),                       // constant
+            _ => json!([1, n, 104729, 1, 1i64 << 36, 1i64 << 35]), // large magnitudes
+        };
+        em.case("hist", json!([i % 3, sg]), n > 0, &["hist", "sizes"]);
+    }
+    for _ in 0..(if thorough { 2000 } else { 200 }) {
+        let n = rng.range(1, 40);
+        let span = *rng.pick(&[1i64, 3, 10, 1000, 1 << 30]);
+        let xs: Vec<i64> = (0..n).map(|_| rng.range(-span, span)).collect();
+        em.case("hist", json!([rng.range(0, 2), [0, xs]]), true, &["hist", "random"]);
     }
 
     // the three views of one run's duration, below and beyond one second
